@@ -12,6 +12,16 @@ def run(tier, seed, replay_path=None):
     from . import ttl_bmc
     run_store_checks(ck, ['set', 'get', 'add', 'replace', 'append', 'prepend', 'increment', 'decrement', 'delete', 'flush'], {'vis', 'deadline', 'kind'}, K=2, tier=tier)
     ttl_bmc.run(ck, tier, {'ttl'})
+    # expiry under concurrency: an item that is past its deadline (its own TTL, or a delayed flush that has come due) stays
+    # unretrievable whatever another client does to the key meanwhile (all schedules, linearizability against the reference)
+    from .conc_checks import explore_program
+    import z3 as _z3
+
+    def expired_item(progs, st):
+        return [st.present[0], _z3.Not(st.live(0))] + [inp.cas == 0 for p in progs for c_, inp in p if c_ in ('set', 'add')]
+    # (a delete meeting an expired-but-uncollected item has no contract - memc-rs reports it as removed - and is left out)
+    cprogs = [[['get'], ['get']], [['get'], ['set']], [['get'], ['add']]]
+    ck.fork_map(cprogs, lambda c, names: explore_program(c, names, constraints=expired_item, allow_stale=True))
     return ck.finish()
 
 
